@@ -267,7 +267,7 @@ Fixpoint louvain_loop (fuel kfuel : nat) (res tol_opt tol_agg : Q) (n_agg : Z)
       | None => MErr MOutOfFuel
       | Some (st, increase) =>
           let labels := unique_inverse (k_labels st) in
-          let k := n_clusters labels in
+          let k := n_labels labels in   (* get_membership(labels).shape[1] = max(labels) + 1 *)
           let g' := aggregate_graph g labels k in
           let ows' := cluster_sums k labels ows in
           let iws' := cluster_sums k labels iws in
@@ -380,7 +380,7 @@ Fixpoint leiden_loop (fuel kfuel : nat) (res tol_opt tol_agg : Q) (n_agg : Z)
           let labels := unique_inverse (k_labels st) in
           let labels_original := labels in
           let labels_refined := unique_inverse (refine count g labels) in
-          let k := n_clusters labels_refined in
+          let k := n_labels labels_refined in
           let labels' := coarse_of_refined labels labels_refined k in
           let g' := aggregate_graph g labels_refined k in
           let ows' := cluster_sums k labels_refined ows in
